@@ -15,10 +15,21 @@ pub struct Node { _p: u8 }
 pub type NodeRef = Rc<Node>;
 #[verifier::external_body]
 pub struct WeakNode { _p: u8 }
+pub uninterp spec fn weak_target(w: &WeakNode) -> Option<NodeRef>;
 impl WeakNode {
     #[verifier::external_body]
-    pub fn upgrade(&self) -> (r: Option<NodeRef>) ensures r is Some { unimplemented!() }   // parents / rhs nodes of a necessary node are alive
+    pub fn upgrade(&self) -> (r: Option<NodeRef>) ensures r is Some, r == weak_target(self) { unimplemented!() }   // parents / rhs nodes of a necessary node are alive
 }
+/// a weak handle that may be dead (BindNode::main / lhs_change): same type in the real code, separate stand-in so
+/// that liveness is a precondition here
+#[verifier::external_body]
+pub struct MaybeDeadWeak { _p: u8 }
+pub uninterp spec fn mdw_target(w: &MaybeDeadWeak) -> Option<NodeRef>;
+impl MaybeDeadWeak {
+    #[verifier::external_body]
+    pub fn upgrade(&self) -> (r: Option<NodeRef>) ensures r == mdw_target(self) { unimplemented!() }
+}
+pub uninterp spec fn node_valid(n: &Node) -> bool;
 #[verifier::external_body]
 pub struct RecomputeHeap { _p: u8 }
 impl RecomputeHeap {
@@ -85,6 +96,8 @@ impl Node {
     fn packed(&self) -> (r: NodeRef) ensures *r == *self { unimplemented!() }
     #[verifier::external_body]
     fn erased(&self) -> (r: &Node) ensures r == self { unimplemented!() }
+    #[verifier::external_body]
+    fn is_valid(&self) -> (r: bool) ensures r == node_valid(self) { unimplemented!() }
     #[verifier::external_body]
     fn recomputed_at(&self) -> (r: &StampCell) ensures r.v.never == node_never_computed(self) { unimplemented!() }
     #[verifier::external_body]
@@ -195,6 +208,67 @@ impl Node {
 //@|         forall|a: &NodeRef, b: &NodeRef| walk_originals(a, b) <==> (**a == *self && **b == *parent_ref),
 //@|         !node_in_heap(parent_ref), node_never_computed(parent_ref) || edge_stale(self, parent_ref),
 //@|     ensures false, // [a-newly-linked-parent-that-never-ran-or-missed-a-change-of-this-child-is-always-queued]
+//@end
+}
+
+
+// ---- the scope of a bind (src/kind/bind.rs, impl BindScope for BindNode): nodes created on the rhs take their
+//      minimum height, validity and necessity from the right node of the bind.  R5 on the BindNode's cells. ----
+//@extract struct BindNodeS
+//@ file: src/kind/bind.rs
+//@ name: BindNode
+//@ cells: lhs_change, main, all_nodes_created_on_rhs
+//@ drop_fields: id_lhs_change, lhs, mapper, rhs, rhs_scope
+//@ rule R8: `struct BindNode` => `struct BindNodeS` x1
+//@ rule R8: `pub lhs_change: WeakNode` => `pub lhs_change: MaybeDeadWeak` x1
+//@ rule R8: `pub main: WeakNode` => `pub main: MaybeDeadWeak` x1
+//@end
+
+impl BindNodeS {
+//@extract fn BindNode::scope_height
+//@ file: src/kind/bind.rs
+//@ impl: impl BindScope for BindNode
+//@ name: height
+//@ as: fn height(&self) -> (r: i32)
+//@ cells: lhs_change, main
+//@ props: C19 C11
+//@ contract:
+//@|     requires mdw_target(&self.lhs_change) is Some,
+//@|     ensures r == node_height(&*mdw_target(&self.lhs_change).unwrap()), // [a-bind-scope-is-as-high-as-its-lhs-change-node-so-rhs-nodes-sit-above-it]
+//@end
+
+//@extract fn BindNode::scope_is_valid
+//@ file: src/kind/bind.rs
+//@ impl: impl BindScope for BindNode
+//@ name: is_valid
+//@ as: fn is_valid(&self) -> (r: bool)
+//@ cells: lhs_change, main
+//@ props: C19
+//@ contract:
+//@|     ensures r == (mdw_target(&self.main) is Some && node_valid(&*mdw_target(&self.main).unwrap())), // [a-bind-scope-is-valid-iff-its-main-node-is-alive-and-valid]
+//@end
+
+//@extract fn BindNode::scope_is_necessary
+//@ file: src/kind/bind.rs
+//@ impl: impl BindScope for BindNode
+//@ name: is_necessary
+//@ as: fn is_necessary(&self) -> (r: bool)
+//@ cells: lhs_change, main
+//@ props: C19 C05
+//@ contract:
+//@|     ensures r == (mdw_target(&self.main) is Some && node_necessary(&*mdw_target(&self.main).unwrap())), // [a-bind-scope-is-necessary-iff-its-main-node-is]
+//@end
+
+//@extract fn BindNode::scope_add_node
+//@ file: src/kind/bind.rs
+//@ impl: impl BindScope for BindNode
+//@ name: add_node
+//@ as: fn add_node(&mut self, node: WeakNode)
+//@ cells: all_nodes_created_on_rhs
+//@ tracing: yes
+//@ props: C19
+//@ contract:
+//@|     ensures final(self).all_nodes_created_on_rhs@ == old(self).all_nodes_created_on_rhs@.push(node), // [every-node-created-in-the-scope-is-remembered-for-invalidation-and-height-adjustment]
 //@end
 }
 
